@@ -1,10 +1,10 @@
 package props
 
 import (
-	"os"
 	"encoding/base64"
 	"encoding/json"
 	"fmt"
+	"os"
 	"sort"
 	"strings"
 	"sync/atomic"
